@@ -27,8 +27,8 @@ import (
 //   - full duplex (HTTP/2 semantics): reads and writes are independent.
 //
 // All parking goes through the race-invisible gates of package core. Bytes that
-// really flow between client and server move under mu, so happens-before
-// follows data flow and nothing else.
+// really flow between client and server move under the mutex of their
+// direction, so happens-before follows data flow and nothing else.
 type ReqIO struct {
 	sim  *core.Sim
 	ID   int
@@ -42,16 +42,21 @@ type ReqIO struct {
 
 	goneErr error // what a body Read reports after a disconnect (nil: errClientGone); set before the run starts
 
-	mu       sync.Mutex // guards everything below except the mirrors
-	in       []byte     // sent by the client, not yet read by the server
-	inEOF    bool       // client half-closed
-	inErr    error      // transport error to report once 'in' is drained
-	aborted  bool       // client went away
-	wbroken  bool       // writes fail (peer gone) without the context being cancelled yet
-	closed   bool       // Body.Close called
-	returned bool       // ServeHTTP returned
-	zeroRun  int
+	// The two directions of a request are independent, as they are on a real
+	// connection: one mutex per direction, so that happens-before follows the
+	// data that really flows (client -> body reads, response writes -> client)
+	// and nothing else. A single mutex would order every response write before
+	// the next body read of the same request and hide a race between a
+	// stream's RecvMsg and SendMsg from the detector.
+	inMu       sync.Mutex // guards the request direction
+	in         []byte     // sent by the client, not yet read by the server
+	inEOF      bool       // client half-closed
+	inErr      error      // transport error to report once 'in' is drained
+	zeroRun    int
+	readsTotal int
+	readN      int // bytes the server took from the body
 
+	outMu       sync.Mutex // guards the response direction
 	hdr         http.Header
 	wroteHeader bool
 	status      int
@@ -61,10 +66,14 @@ type ReqIO struct {
 	consumed    int // response bytes the client has taken (flow control)
 	window      int // 0 = unlimited
 	trailer     http.Header
-	hijacked    bool
-	readsTotal  int
 	writes      int
-	readN       int // bytes the server took from the body
+
+	// flags seen from both directions: go:norace access only (flags/setFlag)
+	aborted  bool // client went away
+	wbroken  bool // writes fail (peer gone) without the context being cancelled yet
+	closed   bool // Body.Close called
+	returned bool // ServeHTTP returned
+	hijacked bool
 
 	// state at the moment of the abort (for the cancellation oracle)
 	inPendingAt    int
@@ -116,6 +125,16 @@ func (q *ReqIO) sync() {
 	q.mFlushed = q.flushed
 }
 
+type ioFlags struct{ aborted, wbroken, closed, returned, hijacked bool }
+
+//go:norace
+func (q *ReqIO) flags() ioFlags {
+	return ioFlags{q.aborted, q.wbroken, q.closed, q.returned, q.hijacked}
+}
+
+//go:norace
+func (q *ReqIO) setFlag(f *bool) { *f = true; q.sync() }
+
 //go:norace
 func (q *ReqIO) Enabled(op int) bool {
 	switch op {
@@ -157,11 +176,7 @@ type simBody struct{ q *ReqIO }
 
 func (b simBody) Read(p []byte) (int, error) { return b.q.read(p, "body.read") }
 func (b simBody) Close() error {
-	q := b.q
-	q.mu.Lock()
-	q.closed = true
-	q.sync()
-	q.mu.Unlock()
+	b.q.setFlag(&b.q.closed)
 	return nil
 }
 
@@ -172,19 +187,19 @@ func (q *ReqIO) read(p []byte, label string) (int, error) {
 	if !ok {
 		return 0, errClientGone
 	}
-	q.mu.Lock()
-	defer q.mu.Unlock()
+	q.inMu.Lock()
+	defer q.inMu.Unlock()
 	defer q.sync()
 	q.readsTotal++
-	switch {
-	case q.aborted:
+	switch f := q.flags(); {
+	case f.aborted:
 		if q.goneErr != nil {
 			return 0, q.goneErr
 		}
 		return 0, errClientGone
-	case q.closed:
+	case f.closed:
 		return 0, http.ErrBodyReadAfterClose
-	case q.returned:
+	case f.returned:
 		return 0, errBodyAfterHandler
 	}
 	if len(p) == 0 {
@@ -259,55 +274,57 @@ func (q *ReqIO) snapshotLocked(code int) {
 
 func (w simRW) WriteHeader(code int) {
 	q := w.q
-	q.mu.Lock()
+	q.outMu.Lock()
 	q.snapshotLocked(code)
-	q.mu.Unlock()
+	q.outMu.Unlock()
 }
 
 func (w simRW) Flush() {
 	q := w.q
-	q.mu.Lock()
+	q.outMu.Lock()
 	q.snapshotLocked(200)
 	q.flushed = len(q.out)
 	q.sync()
-	q.mu.Unlock()
+	q.outMu.Unlock()
 }
 
 func (w simRW) Write(p []byte) (int, error) { return w.q.write(p, "rw.write") }
 
 func (q *ReqIO) write(p []byte, label string) (int, error) {
-	q.mu.Lock()
-	stalled := q.window > 0 && len(q.out)-q.consumed >= q.window && !q.aborted && !q.wbroken
-	q.mu.Unlock()
+	f := q.flags()
+	q.outMu.Lock()
+	stalled := q.window > 0 && len(q.out)-q.consumed >= q.window && !f.aborted && !f.wbroken
+	q.outMu.Unlock()
 	q.setWritePark(true)
 	ok := q.rwSlot.Yield(label, q, opWrite)
 	q.setWritePark(false)
 	if !ok {
 		return 0, errClientGone
 	}
-	q.mu.Lock()
-	defer q.mu.Unlock()
+	f = q.flags()
+	q.outMu.Lock()
+	defer q.outMu.Unlock()
 	defer q.sync()
-	if q.aborted || q.wbroken {
+	if f.aborted || f.wbroken {
 		// net/http: a Write that was blocked on the peer is released with an
 		// error, a large one fails when its buffer is flushed, but a small
 		// Write after the peer went away just lands in the 4 KiB buffer and
 		// reports success (Flush has no error to return). A hijacked
 		// connection fails at once.
-		if !q.hijacked && !stalled && len(p) < 4096 {
+		if !f.hijacked && !stalled && len(p) < 4096 {
 			q.sim.Note("write " + itoa(len(p)) + " swallowed by the buffer of a dead connection")
 			return len(p), nil
 		}
 		q.sim.Count(cWriteError)
 		return 0, errClientGone
 	}
-	if q.returned && !q.hijacked {
+	if f.returned && !f.hijacked {
 		return 0, http.ErrHandlerTimeout // write after the handler returned
 	}
 	q.snapshotLocked(200)
 	q.writes++
 	q.out = append(q.out, p...)
-	if q.hijacked || len(q.out)-q.flushed >= 4096 {
+	if f.hijacked || len(q.out)-q.flushed >= 4096 {
 		q.flushed = len(q.out) // a raw connection has no buffer; net/http's overflows at 4 KiB
 	}
 	q.sim.Note("write " + itoa(len(p)))
@@ -317,9 +334,7 @@ func (q *ReqIO) write(p []byte, label string) (int, error) {
 // Hijack hands the connection over for WebSocket upgrades.
 func (w simRW) Hijack() (net.Conn, *bufio.ReadWriter, error) {
 	q := w.q
-	q.mu.Lock()
-	q.hijacked = true
-	q.mu.Unlock()
+	q.setFlag(&q.hijacked)
 	c := simConn{q}
 	return c, bufio.NewReadWriter(bufio.NewReader(c), bufio.NewWriter(c)), nil
 }
@@ -334,11 +349,7 @@ func (simAddr) String() string  { return "sim" }
 func (c simConn) Read(p []byte) (int, error)  { return c.q.read(p, "conn.read") }
 func (c simConn) Write(p []byte) (int, error) { return c.q.write(p, "conn.write") }
 func (c simConn) Close() error {
-	q := c.q
-	q.mu.Lock()
-	q.closed = true
-	q.sync()
-	q.mu.Unlock()
+	c.q.setFlag(&c.q.closed)
 	return nil
 }
 func (simConn) LocalAddr() net.Addr                { return simAddr{} }
@@ -351,11 +362,11 @@ func (simConn) SetWriteDeadline(t time.Time) error { return nil }
 
 // finish is called by the request goroutine right after ServeHTTP returned.
 func (q *ReqIO) finish() {
-	q.mu.Lock()
-	defer q.mu.Unlock()
-	q.returned = true
+	q.setFlag(&q.returned)
+	q.outMu.Lock()
+	defer q.outMu.Unlock()
 	q.flushed = len(q.out)
-	if !q.hijacked {
+	if !q.flags().hijacked {
 		// net/http: if nothing was written the header goes out now with all
 		// keys; otherwise declared and prefixed trailers are collected.
 		if !q.wroteHeader {
@@ -384,26 +395,26 @@ func (q *ReqIO) finish() {
 // ---- client side (always called by the owning client / fault task) ---------
 
 func (q *ReqIO) clientSend(p []byte) {
-	q.mu.Lock()
+	q.inMu.Lock()
 	q.in = append(q.in, p...)
 	q.sync()
-	q.mu.Unlock()
+	q.inMu.Unlock()
 }
 
 func (q *ReqIO) clientHalfClose() {
-	q.mu.Lock()
+	q.inMu.Lock()
 	q.inEOF = true
 	q.sync()
-	q.mu.Unlock()
+	q.inMu.Unlock()
 }
 
 // clientBreakRead makes the request stream end with a transport error (not a
 // disconnect: the context stays live).
 func (q *ReqIO) clientBreakRead(err error) {
-	q.mu.Lock()
+	q.inMu.Lock()
 	q.inErr = err
 	q.sync()
-	q.mu.Unlock()
+	q.inMu.Unlock()
 }
 
 // clientAbort is the client going away: net/http cancels the request context,
@@ -416,33 +427,30 @@ func (q *ReqIO) clientAbort() {
 	q.cancel()
 }
 
+// (the state "at the moment of the abort" is taken from the mirrors: locking
+// both directions here would tie them together through the fault task)
+//
+//go:norace
 func (q *ReqIO) clientBreakIO() {
-	q.mu.Lock()
-	q.inPendingAt = len(q.in)
-	if q.inEOF || q.inErr != nil {
+	q.inPendingAt = q.mIn
+	if q.mInEOF || q.mInErr {
 		q.inPendingAt = -1 // the read would have returned anyway
 	}
-	q.writeStalledAt = q.window > 0 && len(q.out)-q.consumed >= q.window
+	q.writeStalledAt = q.mWindow > 0 && q.mOut-q.mConsumed >= q.mWindow
 	q.aborted = true
 	q.sync()
-	q.mu.Unlock()
 }
 
-func (q *ReqIO) clientBreakWrites() {
-	q.mu.Lock()
-	q.wbroken = true
-	q.sync()
-	q.mu.Unlock()
-}
+func (q *ReqIO) clientBreakWrites() { q.setFlag(&q.wbroken) }
 
 func (q *ReqIO) clientConsume(n int) {
-	q.mu.Lock()
+	q.outMu.Lock()
 	q.consumed += n
 	if q.consumed > len(q.out) {
 		q.consumed = len(q.out)
 	}
 	q.sync()
-	q.mu.Unlock()
+	q.outMu.Unlock()
 }
 
 // Response is what the client observed, taken after the run.
@@ -456,7 +464,8 @@ type Response struct {
 }
 
 func (q *ReqIO) response() Response {
-	q.mu.Lock()
-	defer q.mu.Unlock()
-	return Response{Status: q.status, Header: q.snapshot, Body: append([]byte(nil), q.out...), Trailer: q.trailer, Hijacked: q.hijacked, Returned: q.returned}
+	q.outMu.Lock()
+	defer q.outMu.Unlock()
+	f := q.flags()
+	return Response{Status: q.status, Header: q.snapshot, Body: append([]byte(nil), q.out...), Trailer: q.trailer, Hijacked: f.hijacked, Returned: f.returned}
 }
